@@ -197,6 +197,9 @@ func C19(p *core.Program, r *core.Report) {
 			seenTypes[tp] = true
 			for _, t := range tested {
 				testedForms[name+": "+t] = true
+				if strings.Contains(t, "dom.GetAttribute(nil,") {
+					continue // the merge of a helper's nil answer, taken on a path that tested it non-nil: infeasible
+				}
 				if !isFrameAddress(t) {
 					badSrc = append(badSrc, "tested: "+t)
 				}
